@@ -188,6 +188,9 @@ class RdmsOps:
         if src is None:
             return False
         try:
+            if o['flag']:
+                for _ in src.obj:          # an earlier iteration over the same object that was abandoned after one item
+                    break
             items = list(src.obj)
             ln = len(src.obj)
         except Exception as e:
@@ -224,6 +227,11 @@ class RdmsOps:
         by = self._by(src.obj, 'rdm', o['a'][0])
         gv, vals = self._values(src.obj, 'rdm', by, o, False)
         listed = list(vals) + ([vals[0]] if o['a'][3] % 4 == 0 else [])      # a value named twice selects each match once
+        if o['a'][4] % 3 == 0:
+            ab = gen.absent_like(vals, set(gv))
+            if ab is not None:
+                listed = listed + [ab]         # a value no RDM carries selects nothing (whatever it would truncate to)
+                self.ctx.probe('absent_value_in_list')
         arg = vals[0] if (len(listed) == 1 and o['flag']) else (np.array(listed) if o['flag2'] else list(listed))
         try:
             res = src.obj.subset(self._byarg(by, o), arg)
@@ -263,6 +271,11 @@ class RdmsOps:
         by = self._by(src.obj, 'pattern', o['a'][0])
         gv, vals = self._values(src.obj, 'pattern', by, o, False)
         listed = list(vals) + ([vals[0]] if o['a'][3] % 4 == 0 else [])
+        if o['a'][4] % 3 == 0:
+            ab = gen.absent_like(vals, set(gv))
+            if ab is not None:
+                listed = listed + [ab]
+                self.ctx.probe('absent_value_in_list')
         arg = vals[0] if (len(listed) == 1 and o['flag']) else (np.array(listed) if o['flag2'] else list(listed))
         if isinstance(arg, str):
             arg = [arg]     # a bare string is iterated character-wise by the library: pass strings in a list
